@@ -11,7 +11,7 @@ miss = n - fi - nf
 strengthened = sum(1 for m in metas if m.get("check_result_before_strengthening"))
 head = f"""## 11. Seeded changes and which check catches them
 
-{n} changes to /repo (three per property, all 36 properties) were written by fresh sub-agents that were given only the text
+{n} changes to /repo (three per property for all 36 properties, plus two more for twelve of them in a later round with the extra guidance quoted in `docs/MUTANT_PROMPT.txt`) were written by fresh sub-agents that were given only the text
 of one property and a scratch worktree of /repo (prompt: `docs/MUTANT_PROMPT.txt`); each compiles, passes the 35 pinned
 tests, and comes with a demonstration that fails with the change and passes without — all three re-confirmed by me in a
 scratch worktree before the change was stored under `seeded/<id>/m<k>/`. None was ever committed to /repo. The last
